@@ -715,10 +715,14 @@ pub fn blame_input(rng: &mut Rng, n: usize) -> Vec<u8> {
     let mut out = String::new();
     let mut commit = String::new();
     let mut author = "";
+    // a pool of commits that come back again and again (A B C D A ...), as in real blame output;
+    // more commits than the default palette has colours
+    let pool: Vec<(String, &str)> = (0..rng.range(2, 7)).map(|_| ((0..8).map(|_| std::char::from_digit(rng.below(16) as u32, 16).unwrap()).collect::<String>(), *rng.pick(&["Dan Davison", "A U Thor", "José Ångström"]))).collect();
     for i in 0..n {
-        if i == 0 || rng.chance(1, 3) {
-            commit = (0..8).map(|_| std::char::from_digit(rng.below(16) as u32, 16).unwrap()).collect();
-            author = *rng.pick(&["Dan Davison", "A U Thor", "José Ångström"]);
+        if i == 0 || rng.chance(1, 2) {
+            let (c, a) = rng.pick(&pool).clone();
+            commit = c;
+            author = a;
         }
         out.push_str(&format!("{} ({:<14} 2021-0{}-1{} 1{}:0{}:00 +0100 {:>3}) T{:06} let v{} = {};\n", commit, author, rng.range(1, 9), rng.range(0, 9), rng.range(0, 9), rng.range(0, 9), i + 1, i, i, rng.below(100)));
     }
